@@ -52,6 +52,12 @@ class Bitwise(Contract):
                         continue
                     for op in ('and', 'or', 'xor'):
                         yield dict(op=op, x=[sx, n, 0], y='mask', shape=shape, forder=fo)
+        # operands the library derived itself (x.T of a transposed base, reversed view, element, shallow copy)
+        for n in (3, 8):
+            for sx in (True, False):
+                for der, shape in (('T', [2, 2]), ('rev', [2]), ('item', []), ('copy', [2])):
+                    yield dict(op='invert', x=[sx, n, 0], y=None, shape=shape, der=der)
+                    yield dict(op='xor', x=[sx, n, 0], y='mask', shape=shape, der=der)
         for n in (63, 64, 65):
             for sx in (True, False):
                 yield dict(op='invert', x=[sx, n, 0], y=None, shape=[2], forder=False, wide_array=True)
@@ -74,7 +80,10 @@ class Bitwise(Contract):
 
     def run(self, cfg, P, inp):
         s, n, f = cfg['x']
-        x = make_fxp(P, s, n, f, codes=inp['cx'], shape=tuple(cfg['shape']), cfg={'overflow': 'wrap', 'rounding': 'ceil'}, vdtype=float, forder=bool(cfg.get('forder')))
+        if cfg.get('der'):
+            x = derived_fxp(P, cfg['der'], s, n, f, inp['cx'], tuple(cfg['shape']), cfg={'overflow': 'wrap', 'rounding': 'ceil'}, vdtype=float)
+        else:
+            x = make_fxp(P, s, n, f, codes=inp['cx'], shape=tuple(cfg['shape']), cfg={'overflow': 'wrap', 'rounding': 'ceil'}, vdtype=float, forder=bool(cfg.get('forder')))
         b = dict(x.__dict__); v0 = list(elems(x.val))
         if cfg['op'] == 'invert':
             z = ~x
